@@ -248,11 +248,10 @@ def check_rec(ctx):
             ctx.check(ok, inst, "PROVENANCE", b.path, what, b.where(n), {"amount": amt.show()[:160]})
 
 
-def check_record_fields(ctx):
+def check_record_fields(ctx, inst="C13.fields"):
     """every accounting, extent-length and layout computation reads Record.value_len / key / timestamp: each constructor
     literal must set value_len to the length of the value it stores (a deferred generation: its predecessor's), start unpublished
     state at (sector 0, refcount 1, not retired); the timestamp's source is C12.source's business"""
-    inst = "C13.fields"
     n_lit = 0
     for b in ctx.prog.product_bodies():
         if not b.file.endswith("core/record.rs"):
